@@ -75,6 +75,7 @@ func (s *Store) AddMessage(message storage.Message) (id string, err error) {
 		date:    message.Date(),
 		subject: message.Subject(),
 	}
+	var evicted []*Message
 	s.withMailbox(message.Mailbox(), true, func(mb *mbox) {
 		// Generate message ID.
 		mb.last++
@@ -87,14 +88,29 @@ func (s *Store) AddMessage(message storage.Message) (id string, err error) {
 		if s.cap > 0 {
 			// Enforce cap.
 			for len(mb.messages) > s.cap {
-				delete(mb.messages, strconv.Itoa(mb.first))
+				oldID := strconv.Itoa(mb.first)
+				if old, ok := mb.messages[oldID]; ok {
+					delete(mb.messages, oldID)
+					evicted = append(evicted, old)
+				}
 				mb.first++
 			}
 		}
 	})
+	// Messages evicted by the cap leave through the same path as any other removal: a deleted
+	// event, and the size enforcer's account is released.
+	for _, old := range evicted {
+		s.emitDeleted(old)
+		s.enforcerRemove(old)
+	}
 	verifhook.Point("mem.add.visible", m.mailbox, id)
 	s.enforcerDeliver(m)
 	return id, err
+}
+
+// emitDeleted announces that m has left its mailbox.
+func (s *Store) emitDeleted(m *Message) {
+	s.extHost.Events.AfterMessageDeleted.Emit(message.MakeMetadata(m))
 }
 
 // GetMessage gets a mesage.
